@@ -147,3 +147,21 @@ Theorem C10_tree_reflow_instance :
   wwf (WItem (MBullet 45) 1 [WRule 45 0]) = false /\ wwf (WPara [[ $"-" ]]) = false.
 Proof. vm_compute. repeat split; reflexivity. Qed.
 Print Assumptions C10_tree_reflow_instance.
+
+(* Clause 3 AT EVERY NESTING DEPTH, on the same trees: pw_lines lists the paragraph lines of the reflowed tree with the width of the
+   container prefix that stands in front of each (2 per block quote, marker and padding per list item).  Every one of them is a line of
+   the written text behind a prefix of exactly that width, and prefix and words together fit the limit - or the line holds ONE word,
+   nothing that could have been broken (fill_struct_fits: by induction over the words) *)
+Theorem C10_tree_long_lines : forall L t, wwf t = true ->
+  Forall (fun x => (exists p, len p = fst x /\ In (p ++ join WrapBound.SP (snd x)) (map bare (spell (to_f (reflow L t))))) /\
+                   (fst x + len (join WrapBound.SP (snd x)) <= L \/ exists w, snd x = [w])) (pw_lines 0 (reflow L t)).
+Proof. exact reflow_long_lines. Qed.
+Print Assumptions C10_tree_long_lines.
+
+Theorem C10_tree_long_lines_instance :
+  let t := WQuote [WItem (MBullet 45) 1 [WPara [[ $"consectetur"; $"adipiscing"; $"elit" ]]]] in
+  wwf t = true /\
+  pw_lines 0 (reflow 12 t) = [ (4, [ $"consectetur" ]); (4, [ $"adipiscing" ]); (4, [ $"elit" ]) ] /\
+  pw_lines 0 (reflow 31 t) = [ (4, [ $"consectetur"; $"adipiscing"; $"elit" ]) ] /\ pw_lines 0 (reflow 30 t) = [ (4, [ $"consectetur"; $"adipiscing" ]); (4, [ $"elit" ]) ].
+Proof. vm_compute. repeat split; reflexivity. Qed.
+Print Assumptions C10_tree_long_lines_instance.
